@@ -46,6 +46,9 @@ def handle (kind : String) (args : List String) (impl : String) : String :=
       let b := drain fuel s.b2a
       let m := showDir "b" a ++ " " ++ showDir "c" b
       verdict impl m m
+  | "c05.late", [_, _] =>
+    -- the backend's stream reaches the client whole and ends with end-of-stream, whatever the client does with its own direction
+    if impl == "got=2097172/2097172 end=eof" then "ok" else s!"SPEC bytes-of-the-other-direction-lost impl={impl}"
   | "c05.multi", _ => verdict impl "ok" "ok"
   | "c05.paced", [_, idle, gap, count, chunk] =>
     match idle.toNat?, gap.toNat?, count.toNat?, chunk.toNat? with
